@@ -508,6 +508,11 @@ func checkC17(p *Prog, r *Report) {
 					if callee != nil && mayPanic[callee] && InModule(callee) && (strings.HasPrefix(callee.Name(), "Must") || strings.HasPrefix(callee.Name(), "must") || p.transparent(callee) && hasPanic(callee)) {
 						nMust++
 						key := kp("PANIC", "P-explicit:"+fname+"→"+FuncName(callee)+"@"+blockTag(fn, b))
+						if strings.HasPrefix(fn.Name(), "Must") && (strings.HasPrefix(callee.Name(), "must") || p.transparent(callee)) {
+							// a Must* wrapper whose panic sits in a shared must-helper: the obligation is at the wrapper's call sites
+							r.OKTrivial(key, "Must*-wrapper: obligation moves to each call site", site, "wrapper panicking through "+FuncName(callee))
+							continue
+						}
 						switch callee.Name() {
 						case "MustEncode", "MustPartialEncode":
 							// inside an accessor the key is the accessor's parameter: the obligation is checked at the accessor's call sites
